@@ -702,8 +702,22 @@ func (x *Exec) splitOrMerge(base *State, outs []*State) []*State {
 	if len(live) <= 1 {
 		return live
 	}
+	// branches that did not touch the heap are always merged (only values differ: cheap ite)
+	sameHeap := true
+	for _, o := range live[1:] {
+		if len(o.heap) != len(live[0].heap) {
+			sameHeap = false
+			break
+		}
+		for k, v := range o.heap {
+			if live[0].heap[k] != v {
+				sameHeap = false
+				break
+			}
+		}
+	}
 	// blockDepth 1 = function body, loop bodies reset the depth (see cutLoop)
-	if x.splitActive(x.blockDepth > 1) {
+	if !sameHeap && x.splitActive(x.blockDepth > 1) {
 		x.splitBudget -= len(live) - 1
 		return live
 	}
